@@ -17,6 +17,7 @@ import (
 	"sort"
 	"strconv"
 	"strings"
+	"sync"
 
 	iampb "cloud.google.com/go/iam/apiv1/iampb"
 	kmspb "cloud.google.com/go/kms/apiv1/kmspb"
@@ -43,6 +44,58 @@ type KMS struct {
 	Templates                        map[string]*kmspb.CryptoKeyVersionTemplate
 	// Hook, if set, runs before every call and may answer it with an error (fault injection).
 	Hook func(call, name string) error
+	// Created counts the key versions this service (and the service it was cloned from) has made;
+	// it indexes the process-wide pool of key material below.
+	Created int
+}
+
+// The service's key material comes from a process-wide pool of real 2048-bit RSA keys: the n-th key
+// version a service creates gets the n-th key of the pool, so keys are distinct within one world and
+// its clones while thousands of explored worlds share the cost of generating them. (Key generation
+// happens inside the real service, not in the repository's code.)
+//
+// Opt-in (PoolKMSKeys): a harness that compares worlds with one another (a foreign authority, say)
+// must not use it, since the n-th key of every world is then the same key.
+var PoolKMSKeys bool
+
+// WarmKeyPool generates the first n pool keys in parallel.
+func WarmKeyPool(n int) {
+	var wg sync.WaitGroup
+	for i := 0; i < n && i < PoolSize; i++ {
+		wg.Add(1)
+		go func(i int) { defer wg.Done(); pooledKey(i) }(i)
+	}
+	wg.Wait()
+}
+
+var keyPool struct {
+	sync.Mutex
+	keys []*poolKey
+}
+
+type poolKey struct {
+	once sync.Once
+	key  *rsa.PrivateKey
+	err  error
+}
+
+// PoolSize bounds the pool: version n gets key n mod PoolSize, so a history longer than that sees
+// key material again (never two live versions with one key as long as fewer than PoolSize versions
+// are alive at once).
+const PoolSize = 65
+
+func pooledKey(i int) (*rsa.PrivateKey, error) {
+	if i >= PoolSize {
+		i = 1 + (i-1)%(PoolSize-1) // key 0 (a world's first key, its root) is not handed out again
+	}
+	keyPool.Lock()
+	for len(keyPool.keys) <= i {
+		keyPool.keys = append(keyPool.keys, &poolKey{})
+	}
+	pk := keyPool.keys[i]
+	keyPool.Unlock()
+	pk.once.Do(func() { pk.key, pk.err = rsa.GenerateKey(randReader(), 2048) })
+	return pk.key, pk.err
 }
 
 // NewKMS returns an empty service.
@@ -61,6 +114,7 @@ func (k *KMS) Clone() *KMS {
 		c.Rings[r] = true
 	}
 	c.KeyOrder = append([]string(nil), k.KeyOrder...)
+	c.Created = k.Created
 	for n, vs := range k.Versions {
 		for _, v := range vs {
 			c.Versions[n] = append(c.Versions[n], &kmsVersion{v.Name, v.State})
@@ -103,15 +157,24 @@ func (k *KMS) newVersion(key string) (*kmspb.CryptoKeyVersion, error) {
 		}
 	}
 	name := fmt.Sprintf("%s/cryptoKeyVersions/%d", key, max+1)
-	var err error
-	if k.Templates[key].GetProtectionLevel() == kmspb.ProtectionLevel_HSM {
-		_, err = k.Signer.GenerateRootKey(name)
+	if PoolKMSKeys {
+		priv, err := pooledKey(k.Created)
+		if err != nil {
+			return nil, err
+		}
+		k.Signer.Keys[name] = priv
 	} else {
-		_, err = k.Signer.GenerateSigningKey(name)
+		var err error
+		if k.Templates[key].GetProtectionLevel() == kmspb.ProtectionLevel_HSM {
+			_, err = k.Signer.GenerateRootKey(name)
+		} else {
+			_, err = k.Signer.GenerateSigningKey(name)
+		}
+		if err != nil {
+			return nil, err
+		}
 	}
-	if err != nil {
-		return nil, err
-	}
+	k.Created++
 	k.Versions[key] = append(k.Versions[key], &kmsVersion{name, kmspb.CryptoKeyVersion_ENABLED})
 	return &kmspb.CryptoKeyVersion{Name: name, State: kmspb.CryptoKeyVersion_ENABLED, Algorithm: k.Templates[key].GetAlgorithm(), ProtectionLevel: k.Templates[key].GetProtectionLevel()}, nil
 }
